@@ -21,6 +21,10 @@ pub enum SAct
     ResMut(usize), ResSet(usize, u32, bool), ResRead(usize), Insert(Ref, usize, u32), Mutate(Ref, usize, u32), MutNr(Ref, usize, u32), ResNr(usize, u32),
     SetNeq(Ref, usize, u32), ReadComp(Ref, usize), Remove(Ref, usize), Despawn(Ref), DespawnRec(Ref),
     EwrAdd(usize, Ref, u32), EwrRemove(usize, Vec<STrig>), WrAdd(usize, Vec<STrig>), WrRemove(usize, Vec<STrig>), WrRun(usize),
+    /// The `World`-level form of a sender, called in-line by an exclusive system after a `world.flush()`.
+    Direct(Box<SAct>),
+    /// `world.flush()` in the middle of an exclusive body.
+    Flush,
 }
 
 #[derive(Clone, Debug)]
@@ -85,6 +89,10 @@ fn parse_act(t: &[&str]) -> Option<SAct>
         ["once", d, ts @ ..] => SAct::Once(num(d)?, parse_trigs(ts)?),
         ["revoke", k] => SAct::Revoke(parse_idx('t', k)?),
         ["run", s] => SAct::Run(parse_ref(s)?),
+        ["flush"] => SAct::Flush,
+        ["dsysevent", s, ty, pid] => SAct::Direct(Box::new(SAct::SysEvent(parse_ref(s)?, num(ty)?, num(pid)?))),
+        ["dbroadcast", ty, pid] => SAct::Direct(Box::new(SAct::Broadcast(num(ty)?, num(pid)?))),
+        ["dentevent", e, ty, pid] => SAct::Direct(Box::new(SAct::EntityEvent(parse_ref(e)?, num(ty)?, num(pid)?))),
         ["sysevent", s, ty, pid] => SAct::SysEvent(parse_ref(s)?, num(ty)?, num(pid)?),
         ["broadcast", ty, pid] => SAct::Broadcast(num(ty)?, num(pid)?),
         ["entevent", e, ty, pid] => SAct::EntityEvent(parse_ref(e)?, num(ty)?, num(pid)?),
